@@ -40,16 +40,29 @@ FUNCS = [
     ('src/ir/module/mod.rs', r'fn add_local_memory_with_tag\b', 'add_local_memory_with_tag'),
     ('src/ir/module/mod.rs', r'fn add_import_memory_with_tag\b', 'add_import_memory_with_tag'),
     ('src/ir/module/mod.rs', r'fn add_import_func_with_tag\b', 'add_import_func_with_tag'),
+    # small functions taken word for word (comparison operators and index arithmetic are the whole content)
+    ('src/ir/types.rs', r'pub fn new(?=\(custom_sections\b)', 'custom_new', 'text'),
+    ('src/ir/types.rs', r'pub fn get_id(?=\(&self, name: String\))', 'custom_get_id', 'text'),
+    ('src/ir/types.rs', r'pub fn get_by_id(?=\(&self, custom_section_id\b)', 'custom_get_by_id', 'text'),
+    ('src/ir/types.rs', r'pub fn delete(?=\(&mut self, id: CustomSectionID\))', 'custom_delete', 'text'),
+    ('src/ir/types.rs', r'pub fn get_section_data_mut(?=\(&mut self, section_id: CustomSectionID\))', 'custom_get_section_data_mut', 'text'),
+    ('src/ir/types.rs', r'pub fn add(?=\(&mut self, section: CustomSection\b)', 'custom_add', 'text'),
+    ('src/ir/module/module_functions.rs', r'pub\(crate\) fn add_local\b', 'add_local_text', 'text'),
 ]
 
 TOK = re.compile(r'''
     (?P<op>Operator::[A-Za-z0-9_]+)
+  | (?P<ctor>\b[A-Z][A-Za-z0-9_]*::new\s*\()
+  | (?P<slit>\b[A-Z][A-Za-z0-9_]*(?:::[A-Z][A-Za-z0-9_]*)?\s*\{)
   | (?P<fassign>\.\s*[A-Za-z_][A-Za-z0-9_]*\s*[+\-*]?=(?![=>]))
   | (?P<cassign>\b[A-Za-z_][A-Za-z0-9_]*\s*[+\-*]=)
   | (?P<macro>\b[A-Za-z_][A-Za-z0-9_]*!\s*[\(\[{])
   | (?P<call>\.?\b[A-Za-z_][A-Za-z0-9_]*\s*(?:::<[^>]*>)?\s*\()
   | (?P<word>\b[A-Za-z_][A-Za-z0-9_]*\b)
 ''', re.X)
+
+
+strip = sr.strip
 
 
 def die(m):
@@ -79,11 +92,33 @@ def fn_body_at(src, pat):
     return src[start:i - 1]
 
 
+def balanced(body, i, open_c, close_c):
+    """text between the bracket that ends at position i and its partner"""
+    depth, j = 1, i
+    while depth:
+        c = body[j]
+        depth += (c == open_c) - (c == close_c)
+        j += 1
+    return body[i:j - 1]
+
+
+SIMPLE_FIELDS = re.compile(r'^(?:[a-z_][A-Za-z0-9_]*(?::[^{};]*?)?,)*(?:[a-z_][A-Za-z0-9_]*(?::[^{};]*?)?)?$')
+
+
 def outline(body):
     out = []
     for m in TOK.finditer(body):
         if m.group('op'):
             out.append(m.group('op'))
+        elif m.group('ctor'):
+            # a constructor call: which value goes into which position is part of the skeleton (the nested calls follow as usual)
+            args = re.sub(r'\s+', '', balanced(body, m.end(), '(', ')')).rstrip(',')
+            out.append(re.sub(r'\s+', '', m.group('ctor')) + args + ')')
+        elif m.group('slit'):
+            # a structure literal (or pattern) whose fields are plain `name` / `name: expression` entries
+            inner = re.sub(r'\s+', '', balanced(body, m.end(), '{', '}'))
+            if inner and SIMPLE_FIELDS.match(inner):
+                out.append(re.sub(r'\s+', '', m.group('slit')) + inner.rstrip(',') + '}')
         elif m.group('fassign'):
             out.append(re.sub(r'\s+', '', m.group('fassign')).replace('=', ' =').replace('+ =', ' +=').replace('- =', ' -=').replace('* =', ' *='))
         elif m.group('cassign'):
@@ -107,17 +142,20 @@ def outline(body):
     return out
 
 
+def text(body):
+    """the body word for word: white space normalised, cut behind `;`, `{` and `}` for reading"""
+    t = re.sub(r'\s+', ' ', body).strip()
+    t = re.sub(r'\s*([;{}(),.\[\]])\s*', r'\1', t)
+    return [x for x in re.split(r'(?<=[;{}])', t) if x]
+
+
 def main():
     cache = {}
     rows = []
-    for f, pat, name in FUNCS:
+    for f, pat, name, *how in FUNCS:
         if f not in cache:
-            src = open(os.path.join(REPO, f)).read()
-            src = re.sub(r'//[^\n]*', '', src)
-            src = re.sub(r'/\*.*?\*/', '', src, flags=re.S)
-            src = re.sub(r'"(?:[^"\\]|\\.)*"', '""', src)
-            cache[f] = src
-        o = outline(fn_body_at(cache[f], pat))
+            cache[f] = strip(open(os.path.join(REPO, f)).read())
+        o = (text if how else outline)(fn_body_at(cache[f], pat))
         if not o:
             die(f'{name}: empty skeleton')
         rows.append((name, o))
@@ -127,7 +165,7 @@ def main():
     for f, o in rows:
         lines, cur = [], '   '
         for t in o:
-            piece = f'"{t}", '
+            piece = '"' + t.replace('"', "'") + '", '
             if len(cur) + len(piece) > 118:
                 lines.append(cur.rstrip())
                 cur = '   '
